@@ -13,10 +13,14 @@ from mc.canon import short
 
 ID = 'C16'
 LEVEL = 'model_checking'
-RULE = ('E2 explicit-state exploration of library state: events (53: '
+RULE = ('E2 explicit-state exploration of library state: events (63: '
         'construct with defaults, marshal, unmarshal valid, unmarshal '
         'invalid, failing constructions, the 3 toggles, a change of the '
-        'caller\'s decimal context, call-then-mutate-the-result composites) applied to a freshly imported pamqp; state = '
+        'caller\'s decimal context and of the logging configuration, '
+        'operations failing in the middle of a container, poison-then-repair '
+        'of kept objects, deep copies, bare base classes first, '
+        'call-then-mutate-the-result composites changing every dict / list / '
+        'byte array in place) applied to a freshly imported pamqp; state = '
         'SHA-256 of a deep snapshot of every pamqp module global, class '
         'attribute and function default/closure; BFS with deduplication '
         '(closes at 2 states on the unchanged tree: switch off/on; the state '
@@ -27,8 +31,12 @@ RULE = ('E2 explicit-state exploration of library state: events (53: '
         'import; oracle: every event\'s canonical result equals the result '
         'of that event alone in a fresh interpreter (one subprocess per '
         'event x switch value) and mutable members of returned objects are '
-        'disjoint by id from each other and from the library. E3 schedule '
-        'exploration: 16 harnesses of 2 or 3 real threads, every executed line '
+        'disjoint by id from each other (a reference kept by the library '
+        'counts only with an observable consequence: the object is changed '
+        'in place, then its own encoding must follow its values and every '
+        'event must still give its baseline). E3 schedule '
+        'exploration: 18 harnesses of 2 or 3 real threads (incl. toggle-then-'
+        'encode against a concurrent encode), every executed line '
         'of pamqp a scheduling point, every schedule with <= 2 (thorough 3) '
         'preemptions; oracle: each thread\'s result equals its sequential '
         'result; the two-thread harnesses are also explored from a cold '
